@@ -6,6 +6,9 @@ import VsgModel.Engine.RuleRun
 import VsgModel.Engine.Relations
 import VsgModel.Check.Verdict
 import VsgProofs.Lemmas.Extras
+import VsgProofs.Lemmas.BaseWsEffects
+import VsgProofs.Lemmas.BaseBindEffects
+import VsgProofs.Lemmas.PostPhase1
 namespace Vsgm.C01
 open Vsgm Vsgm.Verdict
 
@@ -165,5 +168,88 @@ example :
 example : codeAllowed .insert 1 ["end".toList, ";".toList] ["end".toList, "process".toList, ";".toList] = true := by decide
 example : codeAllowed .insert 1 ["end".toList, ";".toList] ["end".toList, "foo".toList, ";".toList] = false := by decide
 example : codeAllowed .none 1 ["a".toList] ["a".toList, "a".toList] = false := by decide
+
+/-! ### layer B: the whitespace family — BEGIN ag_bws -/
+
+/-- **every `_fix_violation` of the whitespace family (187 rules), all actions, all token lists**: the code
+    sequence is kept — `_partial`: the guard says that the old tokens the fix deletes or overwrites are layout
+    tokens (comment_100 / whitespace_002: that the token whose value is edited is a comment) -/
+theorem bfix_ws_codeSeq_partial (owner : String) (params action : Base.KV) (old new : List Tok)
+    (ho : owner ∈ Base.wsOwners) (h : Base.fixByOwner owner params action old = some (.ok new))
+    (hg : Base.wsGuard (fun k => k.isLayout) owner params action old = true) : codeSeq fold old = codeSeq fold new := by
+  rw [Base.fixByOwner_ws _ _ _ _ ho] at h
+  exact Base.ws_codeSeq fold owner params action old new ho h hg
+
+/-- whitespace_between_tokens with `number_of_spaces ≠ 0` (the default of all 171 rules is 1 or ">=1"):
+    no guard at all -/
+theorem bfix_wsBetween_codeSeq (params action : Base.KV) (old new : List Tok) (nos : Base.NoS)
+    (hn : Base.nosOf (params.get "number_of_spaces") = .ok nos) (hn0 : nos ≠ .int 0)
+    (h : Base.fixByOwner Base.wsBetweenOwner params action old = some (.ok new)) : codeSeq fold old = codeSeq fold new := by
+  apply bfix_ws_codeSeq_partial fold _ params action old new (by decide +kernel) h
+  have hne : (nos == Base.NoS.int 0) = false := by simpa using hn0
+  simp [Base.wsGuard, hn, Base.WsBetween.guard, Base.WsBetween.touched, hne]
+
+/-- the guard of comment_100 is needed: on a CODE token the inserted blank changes the code sequence -/
+theorem bfix_comment100_code_witness :
+    ∃ old new, Base.fixByOwner Base.comment100Owner [] [("index", .int 2)] old = some (.ok new) ∧
+      codeSeq id old ≠ codeSeq id new :=
+  ⟨[⟨9, .code, "abcd".toList⟩], [⟨9, .code, "ab cd".toList⟩], by decide +kernel, by decide +kernel⟩
+
+/-! END ag_bws -/
+
+/-! ### BEGIN ag_bind (indent / vertical spacing / post-phase-1) -/
+
+/-! ### layer B: indent and vertical-spacing families, post-phase-1 normalisation — code kept -/
+
+/-- every indent rule keeps the code sequence, for every action / style / size / indent level, on
+    tokens of interest of the extractor's shape (`ToiOk`) -/
+theorem bfix_indent_codeSeq_partial (owner : String) (params action : Base.KV) (old new : List Tok)
+    (ho : owner ∈ Base.indentOwners) (h : Base.fixByOwner owner params action old = some (.ok new))
+    (hok : Base.Indent.ToiOk (Base.strAction action) old) : codeSeq fold old = codeSeq fold new := by
+  obtain ⟨style, size, h'⟩ := Base.Bind.indent_fixV_of_owner owner params action old new ho h
+  exact (Base.Indent.fixV_layoutOnly _ _ _ _ _ _ _ h' hok).codeSeq fold
+
+/-- every vertical-spacing rule: inserting a blank line keeps the code sequence on EVERY token list;
+    removing keeps it when the region holds no code (`nonLayout old = []`, the extractors' contract) -/
+theorem bfix_blankline_codeSeq_partial (owner : String) (params action : Base.KV) (old new : List Tok)
+    (ho : owner ∈ Base.blankLineOwners) (h : Base.fixByOwner owner params action old = some (.ok new))
+    (hreg : new.length < old.length → nonLayout old = []) : codeSeq fold old = codeSeq fold new := by
+  suffices hl : LayoutOnly old new from hl.codeSeq fold
+  rcases Base.Bind.blankline_shape owner params action old new ho h with ⟨_, hr⟩ | hr | hr | ⟨pre, suf, c⟩
+  · rw [hr]; exact Base.BlankLine.layoutOnly_insert_front _ _ old
+  · rw [hr]; exact Base.BlankLine.layoutOnly_insert_back _ _ old
+  · rw [hr]; rfl
+  · rw [c.layoutOnly_iff]
+    unfold Base.BlankLine.Cut at c
+    by_cases hlen : new.length < old.length
+    · have hz := hreg hlen
+      rw [c, nonLayout_append, nonLayout_append] at hz
+      simp only [List.append_eq_nil_iff] at hz
+      exact ⟨hz.1.1, hz.2⟩
+    · have hl := congrArg List.length c
+      simp only [List.length_append] at hl
+      have h1 : pre = [] := List.eq_nil_of_length_eq_zero (by omega)
+      have h2 : suf = [] := List.eq_nil_of_length_eq_zero (by omega)
+      rw [h1, h2]; exact ⟨rfl, rfl⟩
+
+/-- whitespace_200 DELETES CODE on a concrete region (genuine defect, replayed on the real class) -/
+theorem bfix_ws200_codeSeq_false :
+    ∃ params action old new, Base.fixByOwner "vsg.rules.whitespace.rule_200.rule_200" params action old = some (.ok new) ∧
+      codeSeq id old = ["others".toList, ";".toList] ∧ codeSeq id new = [";".toList] :=
+  ⟨[], [("remove", .int 1)],
+   [⟨Gen.blankCls, .blank, []⟩, ⟨9, .code, "others".toList⟩, ⟨9, .code, ";".toList⟩, ⟨Gen.crCls, .cr, ['\n']⟩,
+    ⟨Gen.blankCls, .blank, []⟩, ⟨Gen.crCls, .cr, ['\n']⟩],
+   [⟨9, .code, ";".toList⟩, ⟨Gen.crCls, .cr, ['\n']⟩, ⟨Gen.blankCls, .blank, []⟩, ⟨Gen.crCls, .cr, ['\n']⟩],
+   by decide +kernel, by decide +kernel, by decide +kernel⟩
+
+/-- the post-phase-1 normalisation keeps the code sequence of every token list -/
+theorem postPhase1_codeSeq (blCls : Nat) (l : List Tok) :
+    codeSeq fold (Post.postPhase1 blCls l) = codeSeq fold l := by
+  have hl : LayoutOnly l (Post.postPhase1 blCls l) := by
+    unfold LayoutOnly Post.postPhase1
+    rw [Post.fixTrailingWhitespace_eq, Post.fixBlankLines_eq, Post.ftwGo_nonLayout, Post.fblGo_nonLayout]
+  exact (hl.codeSeq fold).symm
+
+/-! ### END ag_bind -/
 
 end Vsgm.C01
